@@ -43,6 +43,7 @@ class Field:
         self.ty = ty
         self.attrs = attrs or {}  # attr name -> set of {'ignore','reverse','key','by'}
         self.extra_attrs = []  # raw attribute strings (e.g. bound(..))
+        self.consistent = False  # C02: every key/by callback expresses one and the same key (N = 1, total)
 
     def has(self, attr, arg):
         return arg in self.attrs.get(attr, ())
@@ -53,7 +54,7 @@ class Field:
             if a in self.attrs:
                 args = []
                 s = self.attrs[a]
-                n = KEY_N[a]
+                n = 1 if self.consistent else KEY_N[a]
                 if "ignore" in s:
                     args.append("ignore")
                 if "reverse" in s:
@@ -61,7 +62,8 @@ class Field:
                 if "key" in s:
                     args.append("key = kk::<%d, _>(&$)" % n)
                 if "by" in s:
-                    fn = {"ord": "by_ord", "partial_ord": "by_po", "eq": "by_eq", "partial_eq": "by_eq", "hash": "by_hash"}[a]
+                    fn = {"ord": "by_ord", "partial_ord": "by_po_total" if self.consistent else "by_po", "eq": "by_eq", "partial_eq": "by_eq",
+                          "hash": "by_hash"}[a]
                     if a == "hash":
                         args.append("by = by_hash::<%d, %s, _>" % (n, conc_ty))
                     else:
